@@ -4,10 +4,11 @@ CONSTANTS
   Ints <- DeepInts
   Strs <- DeepStrs
   Tags <- DeepTags
+  Simples <- AllSimples
   MaxStack = 4
   MaxNodes = 5
   MaxDepth = 3
   MaxArr = 3
   MaxPairs = 2
   AllowWrap = TRUE
-INVARIANTS TypeOK RoundTrip SelfDelimiting NoItemIsAPrefix PrefixFree CanonicalEncoding ReEncode HeadIsShortest WrapIsExact 
+INVARIANTS Theorems 
